@@ -37,6 +37,10 @@ def obligations(tier):
             obs.append(Ob(f"{short}_inline", "E1", "h_member", {"member": m, "state": "inline"}, 900, "sequence inline in the manifest: only the wrapper digest", weight=40))
     obs.append(Ob("all_severed", "E1", "h_all", {}, 900, "all severable members severed and present at once, wrapper algorithm symbolic", weight=100))
     obs.append(Ob("length_boundaries_small", "E1", "h_boundary", {"sizes": [23, 24, 255, 256]}, 900, "manifest wrapped length across 23/24 and 255/256 with symbolic sequence number", weight=100))
+    # block-wise processing boundaries: wrapped manifest (content + 3-byte head) of exactly 2^k bytes and its neighbours for the
+    # smallest sequence-number encoding; wider encodings shift the length by 1, 2, 4, 8
+    blocks = [2**k - 3 + dlt for k in ((9, 12) if tier == "quick" else (6, 7, 8, 9, 10, 11, 12, 13)) for dlt in (-1, 0, 1)]
+    obs.append(Ob("length_block_multiples", "E1", "h_boundary", {"sizes": blocks}, 1500, "manifest wrapped length at powers of two (512, 4096; thorough: 64..8192) and +-1, symbolic sequence number", weight=150))
     if tier == "thorough":
         obs.append(Ob("length_boundaries_64k", "E1", "h_boundary", {"sizes": [65535, 65536]}, 3000, "manifest wrapped length across 65535/65536", weight=500))
     obs.append(Ob("nested_dependencies", "E1", "h_nested", {}, 900, "integrated dependency envelopes inline at depth 1 and 2: every level's digests", weight=100))
